@@ -6,7 +6,7 @@ W=${SEED_WT:-/var/tmp/w/benignwt}
 if [ ! -d "$W" ]; then git -C /repo worktree add --detach "$W" HEAD >/dev/null 2>&1; fi
 cd "$W" && git checkout -q -- . && git clean -qfd src tests >/dev/null
 mkdir -p "$V/build/benigntest"
-for f in "$V"/seeded/benign/[AB]*.diff; do
+for f in "$V"/seeded/benign/[ABN]*.diff; do
   id=$(basename "$f" .diff)
   cd "$W" && git checkout -q -- . && git apply "$f" || { echo "$id PATCH-FAILED"; continue; }
   out="$V/build/benigntest/$id.txt"
